@@ -14,8 +14,9 @@ MANIFEST = {
     "level_claimed": {
         "category": "model_checking",
         "text": "TLC enumerates the full product of statement descriptors of read-only users (10 modifying kinds x 8 leading "
-                "decorations x 5 separators after the first keyword x 3 keyword casings x 4 trailing decorations x 5 channels "
-                "x 2 transaction states x 2 split flags; quick: every descriptor with at most one decoration plus a seeded "
+                "decorations x 5 separators after the first keyword x 3 keyword casings x 4 trailing decorations x 6 channels "
+                "x 2 transaction states x 2 split flags, and undecorated statements under every session history (keep-session, "
+                "earlier read, user made read-only by a namespace reload after the session connected); quick: every descriptor with at most one decoration plus a seeded "
                 "sample), checks on each that reject / master / replica-allowed partition the space and that decorations, "
                 "channel, split flag and transaction state do not change MustReject, and emits each descriptor with the "
                 "required decision; every emitted descriptor is rendered to SQL and replayed on the real SessionExecutor "
@@ -38,7 +39,9 @@ def run(ctx):
     ctx.assumptions += [
         "a statement 'reaches a backend' iff a connection is requested from a node pool of a slice (fake ConnectionPool.Get)",
         "one representative statement body per kind on an unsharded table of the session database",
-        "keep-session mode, admin/monitor/statistic users are not exercised",
+        "session history is part of the descriptor: keep-session namespace, a plain read earlier in the session, a plain read "
+        "preceding the statement in the same multi-statement text, a real namespace reload (Manager.ReloadNamespacePrepare/"
+        "Commit) that gave the user its current rw flag after the session connected; admin/monitor/statistic users are not exercised",
     ]
     if ctx.replay:
         rec = ctx.read_ndjson(ctx.replay)[0]
